@@ -44,7 +44,9 @@ Eager ==
      \/ WorkTake(s) /\ hist' = Append(hist, H("WorkTake", s, 0, Head(q[s]))) /\ held' = held
      \/ WorkExit(s) /\ hist' = hist /\ held' = held
      \/ RegisterUnblock(s) /\ hist' = Append(hist, H("Registered", s, 0, 0)) /\ held' = [held EXCEPT ![s] = HoldReg]
-     \/ ~held[s] /\ LiveEnd(s) /\ hist' = Append(hist, H("End", s, 0, 0)) /\ held' = held
+     \* x = 1: both cases of the select were ready, Go chooses at random (the replay cannot be predicted)
+     \/ ~held[s] /\ LiveEnd(s) /\ held' = held
+        /\ hist' = Append(hist, H("End", s, 0, IF err[s] # "none" /\ ctxd[s] THEN 1 ELSE 0))
 
 Controlled ==
   \/ \E w \in Writers :
